@@ -47,7 +47,7 @@ func runC20(c *mon.Ctx) {
 		var s *gen.Stream
 		var m *gen.Model
 		for {
-			m = gen.RandomModel(r, gen.ModelOpts{MaxPES: 2, MaxPMT: 2, MaxSI: 2, MaxUnits: 3, RichAF: true})
+			m = gen.RandomModel(r, gen.ModelOpts{MaxPES: 2, MaxPMT: 2, MaxSI: 2, MaxUnits: 3, RichAF: true, Scrambled: i%4 == 1, SharedPMTPID: i%4 == 2})
 			s = m.Build(r)
 			if len(s.Packets) >= 3 && len(s.Packets) <= 60 {
 				break
